@@ -1502,7 +1502,9 @@ impl AllowedRange {
     #[must_use]
     /// Return true if the value is present in the allowed range.
     pub fn contains(&self, value: i64) -> bool {
-        self.min <= value && value < self.max
+        // `max` is exclusive, so a range that is meant to be unbounded above (`no_check`) cannot
+        // express `i64::MAX` itself. Treat an upper bound of `i64::MAX` as unbounded.
+        self.min <= value && (value < self.max || self.max == i64::MAX)
     }
 
     /// Returns how far we're outside the allowed range.
